@@ -51,6 +51,9 @@ type poolT struct {
 
 var pool poolT
 
+// extraInputs are appended to the pool by buildPool (set before it is called).
+var extraInputs []grownInput
+
 func pathOf(k opKey) string { return pool.paths[k.Path] }
 
 func isNilIface(x any) bool {
@@ -209,6 +212,14 @@ func buildPool(root string, seed uint64, corrupt, churn, large int) error {
 			family: int32(len(p.inputs)), class: clsChurn})
 	}
 
+	// coverage-grown inputs (see grow.go), if the driver computed them
+	for _, g := range extraInputs {
+		if g.Src < 0 || g.Src >= len(p.inputs) {
+			continue
+		}
+		src := p.inputs[g.Src]
+		p.inputs = append(p.inputs, input{text: g.Text, origin: "grown:" + g.Kind + ":" + src.origin, entry: g.Entry, paths: src.paths, family: src.family, class: clsCorrupt})
+	}
 	// large and deep inputs: what a size- or depth-triggered code path needs
 	for i := 0; i < large; i++ {
 		txt, e := largeText(rng, i, p.inputs, corpus)
